@@ -660,11 +660,10 @@ func (pr *ProtoArray) OnPrune(ctx context.Context, anchorRoot Root, anchorSlot S
 		}
 		if node.ForkchoiceParent != NONE && node.ForkchoiceParent < pr.indexOffset {
 			node.ForkchoiceParent = NONE
-			// A block stays attached to the first retained node of its parent root (e.g. a gap-slot anchor).
-			if parentSlot, ok := pr.blockSlots[node.ParentRoot]; ok && node.ParentRoot != node.Ref.Root {
-				if parentIndex, ok := pr.indices[NodeRef{Root: node.ParentRoot, Slot: parentSlot}]; ok {
-					node.ForkchoiceParent = parentIndex
-				}
+			// A block built on the anchor root stays attached to the anchor (the anchor may be a gap slot,
+			// later than the node the block was attached to).
+			if node.ParentRoot == anchorRoot && node.Ref.Root != anchorRoot && prunedUpTo == len(pruned) {
+				node.ForkchoiceParent = anchorIndex
 			}
 		}
 	}
